@@ -32,6 +32,20 @@ func (g *Global) leakedAllocs(fn *ssa.Function) map[*ssa.Alloc]bool {
 	return m
 }
 
+// nonRetaining: library entry points trusted not to keep (or publish) the
+// pointers they are given beyond the call. Listed in the evidence.
+var nonRetainingFns = map[string]bool{
+	"encoding/binary.Read": true, "encoding/binary.Write": true, "encoding/binary.Size": true,
+	"github.com/zeebo/bencode.DecodeBytes": true, "github.com/zeebo/bencode.DecodeString": true,
+	"github.com/zeebo/bencode.EncodeBytes": true, "(*github.com/zeebo/bencode.Decoder).Decode": true,
+	"(*github.com/zeebo/bencode.Encoder).Encode": true,
+	"encoding/json.Unmarshal": true, "encoding/json.Marshal": true,
+}
+
+func nonRetaining(callee *ssa.Function) bool {
+	return nonRetainingFns[callee.String()] || isPurePkg(fnPkgPath(callee))
+}
+
 func safeCallee(g *Global, c *ssa.CallCommon, argIdx int) bool {
 	if _, ok := c.Value.(*ssa.Builtin); ok {
 		return true
@@ -46,7 +60,7 @@ func safeCallee(g *Global, c *ssa.CallCommon, argIdx int) bool {
 	if _, ok := externModels[callee.String()]; ok {
 		return true
 	}
-	if fc := g.cs.Funcs[fnID(callee)]; fc != nil && fc.CallsArg > 0 && fc.CallsArg-1 == argIdx {
+	if fc := g.cs.Funcs[fnID(callee)]; fc != nil && ((fc.CallsArg > 0 && fc.CallsArg-1 == argIdx) || (fc.MayCallArg > 0 && fc.MayCallArg-1 == argIdx)) {
 		return true
 	}
 	return false
@@ -112,6 +126,27 @@ func (g *Global) valueLeaks(v ssa.Value, seen map[ssa.Value]bool, depth int) boo
 			if g.valueLeaks(r, seen, depth+1) {
 				return true
 			}
+		case *ssa.MakeInterface:
+			// boxed pointer handed to library code that decodes into it and does not keep it
+			irefs := r.Referrers()
+			if irefs == nil {
+				return true
+			}
+			for _, ir := range *irefs {
+				switch ir := ir.(type) {
+				case *ssa.DebugRef:
+				case ssa.CallInstruction:
+					if _, isGo := ir.(*ssa.Go); isGo {
+						return true
+					}
+					callee := ir.Common().StaticCallee()
+					if callee == nil || !nonRetaining(callee) {
+						return true
+					}
+				default:
+					return true
+				}
+			}
 		case *ssa.MakeClosure:
 			// captured: the closure value must not leak, and the closure body must not leak
 			// the corresponding free variable
@@ -155,7 +190,50 @@ func (g *Global) valueLeaks(v ssa.Value, seen map[ssa.Value]bool, depth int) boo
 
 // preserveLocals: after a havoc of keys, the cells of this execution's own
 // non-leaked allocations keep their values.
-func (ex *Exec) preserveLocals(fr *Frame, pc Term, old, cur State, keys map[string]bool) {
+func (ex *Exec) preserveLocals(fr *Frame, pc Term, old, cur State, keys map[string]bool, c *ssa.CallCommon) {
+	// allocations whose address is handed to this very call may be written by it
+	passed := map[*ssa.Alloc]bool{}
+	if c != nil {
+		var root func(v ssa.Value, depth int)
+		root = func(v ssa.Value, depth int) {
+			if depth > 6 {
+				return
+			}
+			switch x := v.(type) {
+			case *ssa.Alloc:
+				passed[x] = true
+			case *ssa.MakeInterface:
+				root(x.X, depth+1)
+			case *ssa.Slice:
+				root(x.X, depth+1)
+			case *ssa.FieldAddr:
+				root(x.X, depth+1)
+			case *ssa.IndexAddr:
+				root(x.X, depth+1)
+			case *ssa.ChangeType:
+				root(x.X, depth+1)
+			case *ssa.MakeClosure:
+				for _, b := range x.Bindings {
+					root(b, depth+1)
+				}
+			case *ssa.UnOp:
+				// a loaded closure or pointer: be conservative about what it may reach
+				if al, ok := x.X.(*ssa.Alloc); ok && x.Op == token.MUL {
+					if refs := al.Referrers(); refs != nil {
+						for _, r := range *refs {
+							if s, ok := r.(*ssa.Store); ok && s.Addr == al {
+								root(s.Val, depth+1)
+							}
+						}
+					}
+				}
+			}
+		}
+		for _, a := range c.Args {
+			root(a, 0)
+		}
+		root(c.Value, 0)
+	}
 	for f := fr; f != nil; f = f.parent {
 		leaked := ex.g.leakedAllocs(f.fn)
 		addrs := f.allocAddrs()
@@ -166,7 +244,7 @@ func (ex *Exec) preserveLocals(fr *Frame, pc Term, old, cur State, keys map[stri
 		sort.Slice(als, func(i, j int) bool { return allocOrder(als[i]) < allocOrder(als[j]) })
 		for _, al := range als {
 			a := addrs[al]
-			if leaked[al] || a.Local != nil || a.Ref.S == "" {
+			if leaked[al] || passed[al] || a.Local != nil || a.Ref.S == "" {
 				continue
 			}
 			el := al.Type().Underlying().(*types.Pointer).Elem()
